@@ -36,18 +36,21 @@ theorem makeRoom_space (b : Buffer) (h : b.wf) : b.makeRoom.len < b.makeRoom.cap
       by_cases hlt : b.offset + b.unread.length < Gen.Teehistorian.BUFFER_SIZE <;>
         simp only [hlt, if_true, if_false] <;> omega
 
-theorem readMore_none {b : Buffer} {c : Cb} (h : readMore b c = none) : c.rem = [] := by
+theorem readMore_eof {b : Buffer} {c : Cb} (h : readMore b c = .eof) : c.rem = [] := by
   unfold readMore Cb.read at h
   cases hds : c.ds with
-  | cons d ds' =>
+  | cons e ds' =>
     rw [hds] at h
-    simp only at h
-    by_cases hc : c.strictEof = true ∧ d ≠ 0 ∧ c.rem.isEmpty = true
-    · cases hrem : c.rem with
-      | nil => rfl
-      | cons x xs => rw [hrem] at hc; simp at hc
-    · simp only [hc, if_false] at h
-      simp at h
+    cases e with
+    | fail => simp at h
+    | size d =>
+      simp only at h
+      by_cases hc : c.strictEof = true ∧ d ≠ 0 ∧ c.rem.isEmpty = true
+      · cases hrem : c.rem with
+        | nil => rfl
+        | cons x xs => rw [hrem] at hc; simp at hc
+      · simp only [hc, if_false] at h
+        simp at h
   | nil =>
     rw [hds] at h
     simp only at h
@@ -55,24 +58,30 @@ theorem readMore_none {b : Buffer} {c : Cb} (h : readMore b c = none) : c.rem = 
     | nil => rfl
     | cons x xs => rw [hrem] at h; simp at h
 
-theorem readMore_some {b b' : Buffer} {c c' : Cb} (hw : b.wf) (h : readMore b c = some (b', c')) :
-    logical b' c' = logical b c ∧ b'.wf ∧ c'.measure < c.measure := by
+theorem readMore_more {b b' : Buffer} {c c' : Cb} (hw : b.wf) (h : readMore b c = .more b' c') :
+    logical b' c' = logical b c ∧ b'.wf ∧ c'.measure < c.measure ∧ (c.noFail → c'.noFail) := by
   have hsp := makeRoom_space b hw
   have hun := makeRoom_unread b
   unfold readMore Cb.read at h
   cases hds : c.ds with
-  | cons d ds' =>
+  | cons e ds' =>
     rw [hds] at h
-    simp only at h
-    by_cases hc : c.strictEof = true ∧ d ≠ 0 ∧ c.rem.isEmpty = true
-    · simp [hc] at h
-    · simp only [hc, if_false, Option.some.injEq, Prod.mk.injEq] at h
-      obtain ⟨rfl, rfl⟩ := h
-      refine ⟨?_, ?_, ?_⟩
-      · simp only [logical, hun, List.append_assoc, List.take_append_drop]
-      · simp only [Buffer.wf, Buffer.len, List.length_append, List.length_take] at hsp ⊢
-        omega
-      · simp only [Cb.measure, hds, List.length_cons, List.length_drop]; omega
+    cases e with
+    | fail => simp at h
+    | size d =>
+      simp only at h
+      by_cases hc : c.strictEof = true ∧ d ≠ 0 ∧ c.rem.isEmpty = true
+      · simp [hc] at h
+      · simp only [hc, if_false, More.more.injEq] at h
+        obtain ⟨rfl, rfl⟩ := h
+        refine ⟨?_, ?_, ?_, ?_⟩
+        · simp only [logical, hun, List.append_assoc, List.take_append_drop]
+        · simp only [Buffer.wf, Buffer.len, List.length_append, List.length_take] at hsp ⊢
+          omega
+        · simp only [Cb.measure, hds, List.length_cons, List.length_drop]; omega
+        · intro hnf
+          simp only [Cb.noFail, hds, List.mem_cons, not_or] at hnf ⊢
+          exact hnf.2
   | nil =>
     rw [hds] at h
     simp only at h
@@ -80,23 +89,45 @@ theorem readMore_some {b b' : Buffer} {c c' : Cb} (hw : b.wf) (h : readMore b c 
     | nil => rw [hrem] at h; simp at h
     | cons x xs =>
       rw [hrem] at h
-      simp only [List.isEmpty_cons, Bool.false_eq_true, if_false, Option.some.injEq, Prod.mk.injEq] at h
+      simp only [List.isEmpty_cons, Bool.false_eq_true, if_false, More.more.injEq] at h
       obtain ⟨rfl, rfl⟩ := h
-      refine ⟨?_, ?_, ?_⟩
+      refine ⟨?_, ?_, ?_, ?_⟩
       · simp only [logical, hun, hrem, List.append_assoc, List.take_append_drop]
       · simp only [Buffer.wf, Buffer.len, List.length_append, List.length_take] at hsp ⊢
         omega
       · simp only [Cb.measure, hrem, List.length_drop, List.length_cons, List.length_nil, Buffer.len] at hsp ⊢
         omega
+      · intro _; simp [Cb.noFail]
+
+theorem readMore_fail {b : Buffer} {c : Cb} (h : readMore b c = .fail) : ¬ c.noFail := by
+  unfold readMore Cb.read at h
+  cases hds : c.ds with
+  | cons e ds' =>
+    rw [hds] at h
+    cases e with
+    | fail => simp [Cb.noFail, hds]
+    | size d =>
+      simp only at h
+      by_cases hc : c.strictEof = true ∧ d ≠ 0 ∧ c.rem.isEmpty = true
+      · simp [hc] at h
+      · simp only [hc, if_false] at h; simp at h
+  | nil =>
+    rw [hds] at h
+    simp only at h
+    cases hrem : c.rem with
+    | nil => rw [hrem] at h; simp at h
+    | cons x xs => rw [hrem] at h; simp at h
 
 /-- The refill loop returns what the parser returns on the *whole* remaining stream, whatever the
-read schedule; on success the remaining stream is exactly the parser's rest. -/
+read schedule; on success the remaining stream is exactly the parser's rest.  The only other
+possibility is that the callback fails. -/
 theorem parseLoop_spec {α : Type} {p : Parser α} (hp : Good p) :
     ∀ (fuel : Nat) (b : Buffer) (c : Cb), b.wf → c.measure < fuel →
-      (∀ x rest, p (logical b c) = .ok x rest →
+      parseLoop p fuel b c = .cbErr ∨
+      ((∀ x rest, p (logical b c) = .ok x rest →
         ∃ b' c', parseLoop p fuel b c = .ok x b' c' ∧ logical b' c' = rest ∧ b'.wf) ∧
       (∀ e, p (logical b c) = .err e → parseLoop p fuel b c = .err (.item e)) ∧
-      (p (logical b c) = .needMore → parseLoop p fuel b c = .err .unexpectedEnd) := by
+      (p (logical b c) = .needMore → parseLoop p fuel b c = .err .unexpectedEnd)) := by
   intro fuel
   induction fuel with
   | zero => intro b c _ h; omega
@@ -107,7 +138,7 @@ theorem parseLoop_spec {α : Type} {p : Parser α} (hp : Good p) :
     | ok x r =>
       have hext := ((hp b.unread).1 x r hpu).2 c.rem
       obtain ⟨pre, hpre⟩ := ((hp b.unread).1 x r hpu).1
-      refine ⟨?_, ?_, ?_⟩
+      refine Or.inr ⟨?_, ?_, ?_⟩
       · intro x' rest' h
         unfold logical at h
         rw [hext] at h
@@ -122,7 +153,7 @@ theorem parseLoop_spec {α : Type} {p : Parser α} (hp : Good p) :
       · intro h; unfold logical at h; rw [hext] at h; simp at h
     | err e =>
       have hext := (hp b.unread).2 e hpu c.rem
-      refine ⟨?_, ?_, ?_⟩
+      refine Or.inr ⟨?_, ?_, ?_⟩
       · intro x' rest' h; unfold logical at h; rw [hext] at h; simp at h
       · intro e' h
         unfold logical at h; rw [hext] at h
@@ -132,19 +163,46 @@ theorem parseLoop_spec {α : Type} {p : Parser α} (hp : Good p) :
     | needMore =>
       simp only
       cases hrm : readMore b c with
-      | none =>
-        have hr := readMore_none hrm
+      | fail => exact Or.inl rfl
+      | eof =>
+        have hr := readMore_eof hrm
         have hl : logical b c = b.unread := by simp [logical, hr]
-        refine ⟨?_, ?_, ?_⟩
+        refine Or.inr ⟨?_, ?_, ?_⟩
         · intro x rest h; rw [hl, hpu] at h; simp at h
         · intro e h; rw [hl, hpu] at h; simp at h
         · intro _; rfl
-      | some bc =>
-        obtain ⟨b', c'⟩ := bc
-        obtain ⟨hl, hw', hm'⟩ := readMore_some hw hrm
+      | more b' c' =>
+        obtain ⟨hl, hw', hm', _⟩ := readMore_more hw hrm
         simp only
         rw [← hl]
         exact ih b' c' hw' (by omega)
+
+/-- A callback that never fails: the loop does not end in a callback error, and the callback it
+hands back never fails either. -/
+theorem parseLoop_noFail {α : Type} (p : Parser α) :
+    ∀ (fuel : Nat) (b : Buffer) (c : Cb), b.wf → c.noFail →
+      parseLoop p fuel b c ≠ .cbErr ∧ ∀ x b' c', parseLoop p fuel b c = .ok x b' c' → c'.noFail := by
+  intro fuel
+  induction fuel with
+  | zero => intro b c _ _; simp [parseLoop]
+  | succ fuel ih =>
+    intro b c hw hnf
+    unfold parseLoop
+    cases hpu : p b.unread with
+    | ok x r =>
+      refine ⟨by simp, ?_⟩
+      intro x' b' c' h
+      simp only [LoopRes.ok.injEq] at h
+      rw [← h.2.2]; exact hnf
+    | err e => simp
+    | needMore =>
+      simp only
+      cases hrm : readMore b c with
+      | fail => exact absurd hnf (readMore_fail hrm)
+      | eof => simp
+      | more b1 c1 =>
+        obtain ⟨_, hw', _, hnf'⟩ := readMore_more hw hrm
+        exact ih b1 c1 hw' (hnf' hnf)
 
 /-! ### Records of a stream: independence of the fuel -/
 
@@ -353,13 +411,14 @@ theorem post_nextKind {cfg : Cfg} {rd : Reader} {fit : FItem} :
 
 theorem cidsEnd_norm (rd : Reader) : rd.norm.cidsEnd = rd.cidsEnd := rfl
 
-/-- `readWithKind` and the record-level step agree. -/
+/-- `readWithKind` and the record-level step agree — unless the callback fails. -/
 theorem readWithKind_lockstep (cfg : Cfg) (rd : Reader) (k : Kind) (b : Buffer) (c : Cb) (hw : b.wf)
     (hn : rd.nextKind = none) :
     let v := recsAfter cfg.hasEx k (logical b c)
+    Reader.readWithKind cfg rd k b c = .cbErr rd ∨
     match Reader.readWithKind cfg rd k b c, recRead cfg rd v with
     | .item it rd' b' c', .item it2 rd2 v' =>
-        it = it2 ∧ rd' = rd2 ∧ b'.wf ∧ v' = viewOf cfg.hasEx rd' (logical b' c')
+        it = it2 ∧ rd' = rd2 ∧ b'.wf ∧ v' = viewOf cfg.hasEx rd' (logical b' c') ∧ (c.noFail → c'.noFail)
     | .finished rd', .finished rd2 => rd' = rd2
     | .err e rd', .err e2 rd2 => e = e2 ∧ rd' = rd2
     | .oom rd', .oom rd2 => rd' = rd2
@@ -372,119 +431,163 @@ theorem readWithKind_lockstep (cfg : Cfg) (rd : Reader) (k : Kind) (b : Buffer) 
   simp only
   cases hpre : rd.pre k with
   | emit it rd' =>
+    right
     simp only
-    refine ⟨by trivial, by trivial, hw, ?_⟩
+    refine ⟨by trivial, by trivial, hw, ?_, fun h => h⟩
     unfold viewOf
     rw [pre_emit_nextKind hpre]
-  | err e => simp
+  | err e => right; simp
   | proceed =>
     simp only
-    obtain ⟨hok, herr, hnm⟩ := parseLoop_spec (good_parseRest k) (c.measure + 1) b c hw (by omega)
-    cases hr : parseRest k (logical b c) with
-    | needMore =>
-      rw [hnm hr]
-      have hv : v = ([], .restEnd k) := recsAfter_needMore hr
-      rw [hv]; simp
-    | err e =>
-      rw [herr e hr]
-      have hv : v = ([], .restErr k e) := recsAfter_err hr
-      rw [hv]; simp
-    | ok fit rest =>
-      obtain ⟨b', c', hpl, hl', hw'⟩ := hok fit rest hr
-      rw [hpl]
-      obtain ⟨rs, t, hv, hrest⟩ := recsAfter_ok (hasEx := cfg.hasEx) hr
-      have hv' : v = (⟨k, fit⟩ :: rs, t) := hv
-      rw [hv']
-      simp only
-      cases hpost : rd.post cfg fit with
-      | item it rd' =>
+    have hnf := parseLoop_noFail (parseRest k) (c.measure + 1) b c hw
+    rcases parseLoop_spec (good_parseRest k) (c.measure + 1) b c hw (by omega) with hcb | ⟨hok, herr, hnm⟩
+    · left; rw [hcb]
+    · right
+      cases hr : parseRest k (logical b c) with
+      | needMore =>
+        rw [hnm hr]
+        have hv : v = ([], .restEnd k) := recsAfter_needMore hr
+        rw [hv]; simp
+      | err e =>
+        rw [herr e hr]
+        have hv : v = ([], .restErr k e) := recsAfter_err hr
+        rw [hv]; simp
+      | ok fit rest =>
+        obtain ⟨b', c', hpl, hl', hw'⟩ := hok fit rest hr
+        rw [hpl]
+        obtain ⟨rs, t, hv, hrest⟩ := recsAfter_ok (hasEx := cfg.hasEx) hr
+        have hv' : v = (⟨k, fit⟩ :: rs, t) := hv
+        rw [hv']
         simp only
-        refine ⟨by trivial, by trivial, hw', ?_⟩
-        have hnk : rd'.nextKind = none := by rw [post_nextKind it rd' hpost, hn]
-        unfold viewOf
-        rw [hnk, hl']
-        simp only
-        apply hrest
-        intro hk
-        subst hk
-        have : fit = .finish := by
-          have := parseRest_finish (logical b c)
-          rw [this] at hr; simp only [PR.ok.injEq] at hr; exact hr.1.symm
-        subst this
-        simp [Reader.post] at hpost
-      | finished rd' => simp
-      | err e rd' => simp
-      | oom rd' => simp
+        cases hpost : rd.post cfg fit with
+        | item it rd' =>
+          simp only
+          refine ⟨by trivial, by trivial, hw', ?_, fun h => (hnf h).2 _ _ _ hpl⟩
+          have hnk : rd'.nextKind = none := by rw [post_nextKind it rd' hpost, hn]
+          unfold viewOf
+          rw [hnk, hl']
+          simp only
+          apply hrest
+          intro hk
+          subst hk
+          have : fit = .finish := by
+            have := parseRest_finish (logical b c)
+            rw [this] at hr; simp only [PR.ok.injEq] at hr; exact hr.1.symm
+          subst this
+          simp [Reader.post] at hpost
+        | finished rd' => simp
+        | err e rd' => simp
+        | oom rd' => simp
 
 theorem recRead_norm (cfg : Cfg) (rd : Reader) (v : List Rec × Tail) :
     recRead cfg rd.norm v = recRead cfg rd v := rfl
 
-/-- The buffered reader and the record-level reader produce the same output, call by call. -/
-theorem runItems_eq_recRun (cfg : Cfg) : ∀ (F : Nat) (rd : Reader) (b : Buffer) (c : Cb), b.wf →
-    runItems cfg F rd b c = recRun cfg F rd (viewOf cfg.hasEx rd (logical b c)) := by
+theorem Output.cons_items (it : Item) (o : Output) : (o.cons it).items = it :: o.items := rfl
+theorem Output.cons_final (it : Item) (o : Output) : (o.cons it).final = o.final := rfl
+
+/-- The buffered reader and the record-level reader produce the same output, call by call — or
+the callback fails, and then the items read so far are a prefix. -/
+theorem runItems_vs_recRun (cfg : Cfg) : ∀ (F : Nat) (rd : Reader) (b : Buffer) (c : Cb), b.wf →
+    runItems cfg F rd b c = recRun cfg F rd (viewOf cfg.hasEx rd (logical b c)) ∨
+    ((runItems cfg F rd b c).final = .cbErr ∧ ¬ c.noFail ∧
+      (runItems cfg F rd b c).items <+: (recRun cfg F rd (viewOf cfg.hasEx rd (logical b c))).items) := by
   intro F
   induction F with
-  | zero => intro rd b c _; rfl
+  | zero => intro rd b c _; left; rfl
   | succ F ih =>
     intro rd b c hw
-    unfold runItems recRun
-    -- reduce both sides to `readWithKind` / `recRead` on a reader without look-ahead
-    have key : ∀ (k : Kind) (b1 : Buffer) (c1 : Cb), b1.wf →
+    -- both sides, from the point where the item kind is known
+    have key : ∀ (k : Kind) (b1 : Buffer) (c1 : Cb), b1.wf → (c.noFail → c1.noFail) →
         recsAfter cfg.hasEx k (logical b1 c1) = viewOf cfg.hasEx rd (logical b c) →
-        (match Reader.readWithKind cfg rd.norm k b1 c1 with
-          | .item it rd' b' c' => (runItems cfg F rd' b' c').cons it
-          | .finished rd' => ⟨[], .finished, rd'.cidsEnd⟩
-          | .err e rd' => ⟨[], .err e, rd'.cidsEnd⟩
-          | .oom rd' => ⟨[], .oom, rd'.cidsEnd⟩
-          | .outOfFuel => ⟨[], .outOfFuel, rd.cidsEnd⟩) =
-        (match recRead cfg rd (viewOf cfg.hasEx rd (logical b c)) with
-          | .item it rd' v' => (recRun cfg F rd' v').cons it
-          | .finished rd' => ⟨[], .finished, rd'.cidsEnd⟩
-          | .err e rd' => ⟨[], .err e, rd'.cidsEnd⟩
-          | .oom rd' => ⟨[], .oom, rd'.cidsEnd⟩
-          | .outOfFuel => ⟨[], .outOfFuel, rd.cidsEnd⟩) := by
-      intro k b1 c1 hw1 hv
-      have hls := readWithKind_lockstep cfg rd.norm k b1 c1 hw1 rfl
-      simp only at hls
-      rw [hv, recRead_norm] at hls
-      cases h1 : Reader.readWithKind cfg rd.norm k b1 c1 <;>
-        cases h2 : recRead cfg rd (viewOf cfg.hasEx rd (logical b c)) <;>
-        rw [h1, h2] at hls <;> simp only at hls
-      · obtain ⟨rfl, rfl, hw', rfl⟩ := hls
-        simp only
-        rw [ih _ _ _ hw']
-      · subst hls; rfl
-      · obtain ⟨rfl, rfl⟩ := hls; rfl
-      · subst hls; rfl
+        Reader.read cfg rd b c = Reader.readWithKind cfg rd.norm k b1 c1 →
+        runItems cfg (F + 1) rd b c = recRun cfg (F + 1) rd (viewOf cfg.hasEx rd (logical b c)) ∨
+        ((runItems cfg (F + 1) rd b c).final = .cbErr ∧ ¬ c.noFail ∧
+          (runItems cfg (F + 1) rd b c).items <+: (recRun cfg (F + 1) rd (viewOf cfg.hasEx rd (logical b c))).items) := by
+      intro k b1 c1 hw1 hnf1 hv hread
+      have hfail := parseLoop_noFail (parseRest k) (c1.measure + 1) b1 c1 hw1
+      unfold runItems recRun
+      rw [hread]
+      rcases readWithKind_lockstep cfg rd.norm k b1 c1 hw1 rfl with hcb | hls
+      · -- the callback failed while the item was being read
+        right
+        rw [hcb]
+        refine ⟨rfl, ?_, List.nil_prefix⟩
+        intro hnf
+        -- a callback that never fails cannot make `readWithKind` fail
+        unfold Reader.readWithKind at hcb
+        cases hpre : rd.norm.pre k with
+        | emit it rd' => rw [hpre] at hcb; simp at hcb
+        | err e => rw [hpre] at hcb; simp at hcb
+        | proceed =>
+          rw [hpre] at hcb
+          simp only at hcb
+          cases hpl : parseLoop (parseRest k) (c1.measure + 1) b1 c1 with
+          | cbErr => exact (hfail (hnf1 hnf)).1 hpl
+          | err e => rw [hpl] at hcb; simp at hcb
+          | outOfFuel => rw [hpl] at hcb; simp at hcb
+          | ok fit b2 c2 =>
+            rw [hpl] at hcb
+            simp only at hcb
+            cases hpost : rd.norm.post cfg fit <;> rw [hpost] at hcb <;> simp at hcb
+      · rw [hv, recRead_norm] at hls
+        cases h1 : Reader.readWithKind cfg rd.norm k b1 c1 <;>
+          cases h2 : recRead cfg rd (viewOf cfg.hasEx rd (logical b c)) <;>
+          rw [h1, h2] at hls <;> simp only at hls
+        · obtain ⟨rfl, rfl, hw', rfl, hnf'⟩ := hls
+          simp only
+          rcases ih _ _ _ hw' with heq | ⟨hf, hnn, hpre⟩
+          · left
+            rw [heq]
+          · right
+            refine ⟨by rw [Output.cons_final]; exact hf, fun hnf => hnn (hnf' (hnf1 hnf)), ?_⟩
+            simp only [Output.cons_items]
+            exact (List.prefix_cons_inj _).mpr hpre
+        · subst hls; left; rfl
+        · obtain ⟨rfl, rfl⟩ := hls; left; rfl
+        · subst hls; left; rfl
     cases hnk : rd.nextKind with
     | some k =>
       have hv : recsAfter cfg.hasEx k (logical b c) = viewOf cfg.hasEx rd (logical b c) := by
         unfold viewOf; rw [hnk]
-      have := key k b c hw hv
-      unfold Reader.read
-      rw [hnk]
-      simp only
-      exact this
+      exact key k b c hw (fun h => h) hv (by unfold Reader.read; rw [hnk]; rfl)
     | none =>
-      unfold Reader.read
-      rw [hnk]
-      simp only
-      obtain ⟨hok, herr, hnm⟩ := parseLoop_spec (good_parseKind cfg.hasEx) (c.measure + 1) b c hw (by omega)
       have hvo : viewOf cfg.hasEx rd (logical b c) = recsOf cfg.hasEx (logical b c) := by
         unfold viewOf; rw [hnk]
-      cases hk : parseKind cfg.hasEx (logical b c) with
-      | needMore =>
-        rw [hnm hk, hvo, recsOf_needMore hk]
-        rfl
-      | err e =>
-        rw [herr e hk, hvo, recsOf_err hk]
-        rfl
-      | ok k rest =>
-        obtain ⟨b', c', hpl, hl', hw'⟩ := hok k rest hk
-        rw [hpl]
-        simp only
-        have hv : recsAfter cfg.hasEx k (logical b' c') = viewOf cfg.hasEx rd (logical b c) := by
-          rw [hvo, recsOf_ok hk, hl']
-        exact key k b' c' hw' hv
+      have hnf0 := parseLoop_noFail (parseKind cfg.hasEx) (c.measure + 1) b c hw
+      rcases parseLoop_spec (good_parseKind cfg.hasEx) (c.measure + 1) b c hw (by omega) with hcb | ⟨hok, herr, hnm⟩
+      · right
+        unfold runItems Reader.read
+        rw [hnk]
+        simp only [hcb]
+        exact ⟨by trivial, fun hnf => (hnf0 hnf).1 hcb, List.nil_prefix⟩
+      · cases hk : parseKind cfg.hasEx (logical b c) with
+        | needMore =>
+          left
+          unfold runItems recRun Reader.read
+          rw [hnk]
+          simp only [hnm hk]
+          rw [hvo, recsOf_needMore hk]
+          rfl
+        | err e =>
+          left
+          unfold runItems recRun Reader.read
+          rw [hnk]
+          simp only [herr e hk]
+          rw [hvo, recsOf_err hk]
+          rfl
+        | ok k rest =>
+          obtain ⟨b', c', hpl, hl', hw'⟩ := hok k rest hk
+          have hv : recsAfter cfg.hasEx k (logical b' c') = viewOf cfg.hasEx rd (logical b c) := by
+            rw [hvo, recsOf_ok hk, hl']
+          exact key k b' c' hw' (fun h => (hnf0 h).2 _ _ _ hpl) hv (by
+            unfold Reader.read; rw [hnk]; simp only [hpl]; rfl)
+
+/-- With a callback that never fails the two agree exactly. -/
+theorem runItems_eq_recRun (cfg : Cfg) (F : Nat) (rd : Reader) (b : Buffer) (c : Cb) (hw : b.wf)
+    (hnf : c.noFail) :
+    runItems cfg F rd b c = recRun cfg F rd (viewOf cfg.hasEx rd (logical b c)) := by
+  rcases runItems_vs_recRun cfg F rd b c hw with h | ⟨_, hn, _⟩
+  · exact h
+  · exact absurd hnf hn
 
 end Tw.Teehistorian
